@@ -238,3 +238,67 @@ func resultSites(f *ssa.Function, ri int) []resultSite {
 	})
 	return out
 }
+
+// mayWriteParam reports whether f may store into a field of the object its pointer parameter
+// idx points to, directly or by handing the pointer on, over the in-scope call graph (calls
+// of function values are resolved by the graph's address-taken + signature matching). The
+// witness names the storing function and the field. Callees outside the module are taken
+// not to write (they cannot name the repository's fields).
+func mayWriteParam(cg *eng.CG, f *ssa.Function, idx int, seen map[string]bool) (bool, string) {
+	if f == nil || f.Blocks == nil || idx < 0 || idx >= len(f.Params) {
+		return false, ""
+	}
+	k := fmt.Sprintf("%s#%d", f.String(), idx)
+	if seen[k] {
+		return false, ""
+	}
+	seen[k] = true
+	p := ssa.Value(f.Params[idx])
+	isP := func(v ssa.Value) bool {
+		v = eng.StripConv(v)
+		if v == p {
+			return true
+		}
+		// reload of the spilled parameter
+		if u, ok := v.(*ssa.UnOp); ok && u.Op == token.MUL {
+			if al, ok := u.X.(*ssa.Alloc); ok {
+				for _, r := range *al.Referrers() {
+					if st, ok := r.(*ssa.Store); ok && st.Addr == al && eng.StripConv(st.Val) == p {
+						return true
+					}
+				}
+			}
+		}
+		return false
+	}
+	var hit string
+	eng.Instrs(f, func(in ssa.Instruction) {
+		if hit != "" {
+			return
+		}
+		if st, ok := in.(*ssa.Store); ok {
+			if fa, ok := st.Addr.(*ssa.FieldAddr); ok && isP(fa.X) {
+				_, fl, _, _ := eng.FieldOf(fa)
+				hit = fmt.Sprintf("%s stores to .%s", fnName(f), fl)
+			}
+		}
+	})
+	if hit != "" {
+		return true, hit
+	}
+	for _, e := range cg.Out[f] {
+		args := eng.CallArgs(e.Site.Common())
+		off := len(e.Callee.Params) - len(args)
+		if off < 0 {
+			continue
+		}
+		for i, a := range args {
+			if isP(a) {
+				if w, why := mayWriteParam(cg, e.Callee, i+off, seen); w {
+					return true, fnName(f) + " → " + why
+				}
+			}
+		}
+	}
+	return false, ""
+}
